@@ -288,13 +288,10 @@ func c11History(R *vr.Result, rng *rand.Rand, id, mode string, h int) (harmfulSe
 		defer func() { go web.Close() }()
 		env.web = web.URL
 		env.sock = filepath.Join(dir, "s.sock")
-		go runSaslAuthSocket(env.sock, env.iface) //nolint:errcheck
-		for i := 0; i < 400; i++ {
-			if _, err := os.Stat(env.sock); err == nil {
-				break
-			}
-			time.Sleep(2 * time.Millisecond)
-		}
+		stopSasl := ovlSasl(env.sock, env.iface)
+		defer stopSasl()
+		env.httpc = &http.Client{Transport: &http.Transport{MaxIdleConnsPerHost: 16}}
+		defer env.httpc.CloseIdleConnections()
 	}
 	rec := &c11Rec{start: time.Now()}
 	written := map[string][]string{}
@@ -428,7 +425,10 @@ func c11History(R *vr.Result, rng *rand.Rand, id, mode string, h int) (harmfulSe
 	// (FIFO queue); it is "harmful" if a client write to u was executed in between.
 	nUpg := 0
 	{
-		type pos struct{ enq []int; upg []int }
+		type pos struct {
+			enq []int
+			upg []int
+		}
 		per := map[string]*pos{}
 		for i, e := range events {
 			if per[e.Subject] == nil {
@@ -606,13 +606,10 @@ func c11Crosstalk(R *vr.Result, rng *rand.Rand) {
 	defer func() { go web.Close() }()
 	env.web = web.URL
 	env.sock = filepath.Join(dir, "s.sock")
-	go runSaslAuthSocket(env.sock, env.iface) //nolint:errcheck
-	for i := 0; i < 400; i++ {
-		if _, err := os.Stat(env.sock); err == nil {
-			break
-		}
-		time.Sleep(2 * time.Millisecond)
-	}
+	stopSasl := ovlSasl(env.sock, env.iface)
+	defer stopSasl()
+	env.httpc = &http.Client{Transport: &http.Transport{MaxIdleConnsPerHost: 64}}
+	defer env.httpc.CloseIdleConnections()
 	rounds := vr.Pick(20, 300)
 	var wg sync.WaitGroup
 	var mu sync.Mutex
